@@ -713,7 +713,7 @@ func (self *StringFuncNode) IsConst() bool {
 
 func (self *StringFuncNode) EvalString(s Symbols) *string {
 	result := self.expr.EvalString(s)
-	if s == nil {
+	if result == nil {
 		return nil
 	}
 	val := self.f(*result)
